@@ -4,4 +4,7 @@ NoFaults == {{}}
 AnyOneFault == {{}} \cup {{i} : i \in Items}
 AnyK == 0..(NItems + 1)
 NoK == {0}
+Admissible == {"propagate", "wind-down-raise"}
+AsCoded == {"propagate"}
+Swallow == {"wind-down-return"}
 ====
